@@ -28,3 +28,6 @@ Definition exact_cover (out : list (Z * Z)) (cs : list core) : Prop :=
    below it, the region word in arg2 (docstring of _send_ffcs) *)
 Definition packet_command (a : Z * Z) : Z := fst a / 2 ^ 24.
 Definition packet_pair (a : Z * Z) : Z * Z := (snd a, fst a mod 2 ^ 24).
+(* the same, reading the core mask as its documented 18 bits (one per core) rather than everything below the
+   command byte; the two readings agree on every packet flood_fill_aplx sends (C12_flood_fill_packets_mask18) *)
+Definition packet_pair18 (a : Z * Z) : Z * Z := (snd a, fst a mod 2 ^ 18).
